@@ -21,12 +21,14 @@ import (
 	"fmt"
 	"os"
 	"os/exec"
+	"os/signal"
 	"path/filepath"
 	"runtime"
 	"sort"
 	"strconv"
 	"strings"
 	"sync"
+	"syscall"
 	"time"
 )
 
@@ -133,14 +135,43 @@ func goEnv() []string {
 	return e
 }
 
+// children are the processes started by run that have not finished; they are
+// killed if the driver is told to stop or a batch overruns its time limit.
+var (
+	childMu  sync.Mutex
+	children = map[*exec.Cmd]bool{}
+)
+
+func killChildren() {
+	childMu.Lock()
+	defer childMu.Unlock()
+	for c := range children {
+		if c.Process != nil {
+			syscall.Kill(-c.Process.Pid, syscall.SIGKILL)
+		}
+	}
+}
+
 func run(dir string, env []string, name string, args ...string) (string, error) {
 	cmd := exec.Command(name, args...)
 	cmd.Dir = dir
 	cmd.Env = env
+	// Own process group (so that taskset + worker die together) and a death
+	// signal, so that no worker outlives the driver.
+	cmd.SysProcAttr = &syscall.SysProcAttr{Setpgid: true, Pdeathsig: syscall.SIGKILL}
 	var b bytes.Buffer
 	cmd.Stdout = &b
 	cmd.Stderr = &b
-	err := cmd.Run()
+	if err := cmd.Start(); err != nil {
+		return "", err
+	}
+	childMu.Lock()
+	children[cmd] = true
+	childMu.Unlock()
+	err := cmd.Wait()
+	childMu.Lock()
+	delete(children, cmd)
+	childMu.Unlock()
 	return b.String(), err
 }
 
@@ -154,6 +185,14 @@ func main() {
 		fmt.Fprintln(os.Stderr, "usage: check <property> [quick|thorough] [--replay FILE] | --setup")
 		os.Exit(2)
 	}
+	sigs := make(chan os.Signal, 1)
+	signal.Notify(sigs, syscall.SIGINT, syscall.SIGTERM, syscall.SIGHUP)
+	go func() {
+		<-sigs
+		killChildren()
+		cleanup()
+		os.Exit(2)
+	}()
 	var err error
 	scratch, err = os.MkdirTemp("", "verif-check-")
 	if err != nil {
@@ -527,7 +566,24 @@ func runCheck(id string, spec propSpec, tier string, seed uint64) int {
 			cpu++
 		}
 	}
-	wg.Wait()
+	limit := 20 * time.Minute
+	if tier == "thorough" {
+		limit = 5 * time.Hour
+	}
+	if v := os.Getenv("VERIF_BATCH_LIMIT"); v != "" {
+		if d, err := time.ParseDuration(v); err == nil {
+			limit = d
+		}
+	}
+	done := make(chan struct{})
+	go func() { wg.Wait(); close(done) }()
+	select {
+	case <-done:
+	case <-time.After(limit):
+		killChildren()
+		<-done
+		trouble("the batch did not finish within %v (workers killed): this is a harness or sizing problem, not a violation", limit)
+	}
 
 	// Classify.
 	violations := 0
